@@ -909,6 +909,17 @@ def np_sqrt(I, v):
     raise Unsupported("np.sqrt argument")
 
 
+def np_cbrt(I, v):
+    if isinstance(v, Sym):
+        return Sym(tlib.cbrt_term(zreal(v)), "float")
+    if isinstance(v, Tensor):
+        return Tensor(tlib.ew1(lift(v), lambda x: tlib.cbrt_term(zreal(x)), "real"))
+    r = round(abs(v) ** (1.0 / 3.0))
+    if r ** 3 == abs(v):
+        return math.copysign(r, v)
+    return Sym(tlib.cbrt_term(core.realval(v)), "float")
+
+
 def np_lcm(I, a, b):
     if isinstance(a, int) and isinstance(b, int):
         return math.lcm(a, b)
@@ -1015,6 +1026,7 @@ def install(I):
         "ceil": B("np.ceil", np_ceil),
         "sqrt": B("np.sqrt", np_sqrt),
         "lcm": B("np.lcm", np_lcm),
+        "cbrt": B("np.cbrt", np_cbrt),
         "ndarray": NativeClass("np.ndarray"),
         "inf": math.inf,
     }
